@@ -50,7 +50,97 @@ let run op args =
        | None -> "ERR")
   | _ -> "BADOP"
 
+(* ------------------------------------------------------------------ *)
+(* histories of the serial build model (Build/Model.v)                  *)
+let bytes_of_string s = List.init (String.length s) (fun i -> n_of_int (Char.code s.[i]))
+let split_list s = if s = "-" then [] else String.split_on_char ',' s
+let rec int_of_nat = function O -> 0 | S n -> 1 + int_of_nat n
+let base_run = int_of_z first_runid
+
+let parse_step (toks : string list) : hstep =
+  match toks with
+  | ["W"; name; data] -> SWrite (bytes_of_string name, List.map (fun x -> n_of_int (int_of_string x)) (split_list data))
+  | ["D"; name; deps; ifc; always; stamp; out; payload; cat; ex] ->
+      let om = match out with "S" -> OStdout | "3" -> ODollar3 | "N" -> ONeither | "B" -> OBoth | "D" -> ODirect | _ -> failwith "out" in
+      SWriteDo (bytes_of_string name,
+        { s_deps = List.map bytes_of_string (split_list deps);
+          s_ifcreate = List.map bytes_of_string (split_list ifc);
+          s_always = (always = "1"); s_stamp = (stamp = "1"); s_out = om;
+          s_payload = n_of_int (int_of_string payload); s_cat = (cat = "1");
+          s_exit = z_of_int (int_of_string ex) })
+  | ["R"; name] -> SRemove (bytes_of_string name)
+  | ["C"; c; k; ts] ->
+      let ts = List.map bytes_of_string (split_list ts) in
+      let k = (k = "k1") in
+      SCmd (match c with
+            | "redo" -> CRedo (k, ts) | "ifchange" -> CIfChange (k, ts)
+            | "ood" -> COod | "targets" -> CTargets | "sources" -> CSources | _ -> failwith "cmd")
+  | _ -> failwith ("bad step: " ^ String.concat " " toks)
+
+let ends_with s suf =
+  let n = String.length s and m = String.length suf in n >= m && String.sub s (n - m) m = suf
+
+let show_opt_run = function None -> "-" | Some z -> string_of_int (int_of_z z - base_run)
+
+let digest (w : world) : string =
+  let files = List.filter_map (fun (n, f) ->
+      let n = str_of_bytes n in
+      match f.f_script with
+      | Some _ -> None
+      | None -> Some (n ^ "=" ^ String.concat "." (List.map (fun x -> string_of_int (int_of_n x)) f.f_data)))
+      w.fs in
+  let files = List.sort compare files in
+  let rows = List.map (fun r ->
+      let n = str_of_bytes r.r_name in
+      let st = match r.r_stamp with
+        | None -> "N"
+        | Some SMissing -> (match read_stamp w r.r_name with SMissing -> "M" | _ -> "m")
+        | Some s -> if stamp_eqb s (read_stamp w r.r_name) then "E" else "D" in
+      Printf.sprintf "%s:%d:%d:%s:%s:%s:%s:%s" n (if r.r_gen then 1 else 0) (if r.r_ovr then 1 else 0)
+        (show_opt_run r.r_checked) (show_opt_run r.r_changed) (show_opt_run r.r_failed) st
+        (match r.r_csum with None -> "-" | Some _ -> "c")) w.dbs.rows in
+  let rows = List.sort compare rows in
+  let name_of i = str_of_bytes (List.nth w.dbs.rows (int_of_nat i - 1)).r_name in
+  let deps = List.map (fun d ->
+      Printf.sprintf "%s>%s:%s:%d" (name_of d.d_target) (name_of d.d_source)
+        (match d.d_mode with DCreated -> "c" | DModified -> "m") (if d.d_delete then 1 else 0)) w.dbs.deps in
+  let deps = List.sort compare deps in
+  "files=" ^ String.concat "|" files ^ " rows=" ^ String.concat "|" rows ^ " deps=" ^ String.concat "|" deps
+
+let show_event = function
+  | EvRun (t, a1, a2, a3) -> Printf.sprintf "run:%s:%s:%s:%s" (str_of_bytes t) (str_of_bytes a1) (str_of_bytes a2) (str_of_bytes a3)
+  | EvWarnOverride t -> "ovr:" ^ str_of_bytes t
+  | EvUnchanged t -> "unch:" ^ str_of_bytes t
+  | EvNoRule t -> "norule:" ^ str_of_bytes t
+  | EvCheck t -> "check:" ^ str_of_bytes t
+  | EvFailed32 t -> "failed32:" ^ str_of_bytes t
+
+let show_output = function
+  | None -> "edit"
+  | Some (OutBuild (evs, rc)) -> Printf.sprintf "rc=%d ev=%s" (int_of_z rc) (String.concat "," (List.map show_event evs))
+  | Some (OutList names) -> "list=" ^ String.concat "," (List.map str_of_bytes names)
+  | Some (OutErr w) -> Printf.sprintf "err=%d" (int_of_n w)
+
+let run_hist (line : string) : string =
+  let steps = List.map (fun s -> List.filter (fun x -> x <> "") (String.split_on_char ' ' s))
+      (String.split_on_char ';' line) in
+  let steps = List.filter (fun s -> s <> []) steps in
+  let depth, steps = match steps with
+    | ["P"; d] :: rest -> int_of_string d, rest
+    | _ -> 0, steps in
+  let rec nat_of_int i = if i <= 0 then O else S (nat_of_int (i - 1)) in
+  let h = List.map parse_step steps in
+  let res = run_history h (init_world (nat_of_int depth)) in
+  String.concat " ;; " (List.map (fun (w, o) -> show_output o ^ " " ^ digest w) res)
+
 let () =
+  if Array.length Sys.argv > 1 && Sys.argv.(1) = "hist" then begin
+    (try
+      while true do
+        let line = input_line stdin in
+        print_endline (try run_hist line with Failure m -> "MODEL-ERROR " ^ m)
+      done
+    with End_of_file -> ()); exit 0 end;
   try
     while true do
       let line = input_line stdin in
